@@ -26,7 +26,7 @@ class Infeasible(BaseException):
 CUR = None          # the active Ctx
 import shutil as _sh, os as _os
 EXT_SOLVER = None if _os.environ.get('VF_NO_CVC5') else _sh.which('cvc5')     # portfolio partner for queries z3 cannot finish
-EXT_TIMEOUT_S = 90
+EXT_TIMEOUT_S = 60
 
 def cur():
     return CUR
@@ -207,8 +207,8 @@ class SymInt:
     def __int__(self): return self
     def __float__(self): raise Unsupported('float() of symbolic int reached a C boundary')
     def __repr__(self): return 'SymInt(%s)' % self.e
-    def __str__(self): raise Unsupported('str() of symbolic int')
-    def __format__(self, spec): raise Unsupported('format() of symbolic int')
+    def __str__(self): return '<symbolic int>'          # only ever used for messages; parsing it back fails loudly
+    def __format__(self, spec): return '<symbolic int>'
 
 # ---- floats as extended reals: kind 0 finite (val), 1 nan, 2 +inf, 3 -inf.  Rounding is NOT modelled.
 FIN, NAN, PINF, NINF = 0, 1, 2, 3
@@ -279,7 +279,7 @@ class SymFloat:
     def __int__(s): raise Unsupported('int() of symbolic float')
     def __index__(s): raise Unsupported('index of symbolic float')
     def __repr__(s): return 'SymFloat(%s,%s)' % (s.kind, s.val)
-    def __str__(s): raise Unsupported('str() of symbolic float')
+    def __str__(s): return '<symbolic float>'
 
 def _farith(a, b, op):
     """IEEE-shaped extended-real arithmetic; finite results exact (no rounding, no overflow)."""
@@ -392,6 +392,7 @@ class SymTimedelta:
     def __bool__(self): return CUR.branch(self.us != 0)
     def __hash__(self): raise Unsupported('hash of symbolic timedelta')
     def __repr__(self): return 'SymTimedelta(%s)' % self.us
+    def __str__(self): return '<symbolic timedelta>'
 
 # ---- Gregorian theory (proleptic, as CPython's datetime): Hinnant's days_from_civil, shifted to date.toordinal()
 def dfc(y, m, d):
@@ -412,6 +413,20 @@ def dfc_py(y, m, d):
 def dim_py(y, m):
     lp = y % 4 == 0 and (y % 100 != 0 or y % 400 == 0)
     return (29 if lp else 28) if m == 2 else (30 if m in (4, 6, 9, 11) else 31)
+
+def _lexlt(a, b):
+    return z3.Or(a[0] < b[0], z3.And(a[0] == b[0], z3.Or(a[1] < b[1], z3.And(a[1] == b[1], a[2] < b[2]))))
+
+def register_civil(c, ymd, o):
+    """theory lemma (redundant, validated by the Gregorian gate): on valid civil dates the ordinal order is the lexicographic
+    order of (year, month, day).  Instantiated pairwise for the civil triples that occur on this path; it lets the solver compare
+    dates without unfolding the day-count formula."""
+    if not LEX_LEMMAS: return
+    for t, ot in c.triples[-LEX_MAX:]:
+        c.add(_lexlt(t, ymd) == (ot < o), _lexlt(ymd, t) == (o < ot))
+    c.triples.append((ymd, o))
+LEX_LEMMAS = True
+LEX_MAX = 12
 
 class LazyField(SymInt):
     """year / month / day of a SymDatetime; the civil-from-ordinal constraints are only added when the
@@ -436,7 +451,7 @@ class SymDatetime:
             else:
                 y, m, d = c.fresh('y'), c.fresh('m'), c.fresh('d')
                 c.add(valid(y, m, d)); c.add(dfc(y, m, d) == o)
-                self._ymd = (y, m, d); c.civil_cache[k] = (o, self._ymd)
+                self._ymd = (y, m, d); c.civil_cache[k] = (o, self._ymd); register_civil(c, self._ymd, o)
         return self._ymd
     year = property(lambda s: LazyField(s, 0))
     month = property(lambda s: LazyField(s, 1))
@@ -486,7 +501,8 @@ class SymDatetime:
     def __hash__(self): raise Unsupported('hash of symbolic datetime')
     def __bool__(self): return True
     def __repr__(self): return 'SymDatetime(%s,%s)' % (self.o, self.us)
-    def __str__(self): raise Unsupported('str() of symbolic datetime')
+    def __str__(self): return '<symbolic datetime>'     # only ever used for messages; parsing it back fails loudly
+    def __format__(self, spec): return '<symbolic datetime>'
     def strftime(self, fmt): raise Unsupported('strftime of symbolic datetime')
     def isoformat(self, *a): raise Unsupported('isoformat of symbolic datetime')
     def timestamp(self): raise Unsupported('timestamp of symbolic datetime')
@@ -520,7 +536,7 @@ class SymTime:
 
 class Ctx:
     """mode 'sym': one execution path under a decision prefix.  mode 'conc': concrete replay from `values`."""
-    def __init__(self, prefix = (), values = None, fuel = 2000, deadline = None, qtimeout_ms = 5000, seed = 0, known = (), pins = None):
+    def __init__(self, prefix = (), values = None, fuel = 2000, deadline = None, qtimeout_ms = 8000, seed = 0, known = (), pins = None):
         self.mode = 'conc' if values is not None else 'sym'
         self.values = values or {}
         self.prefix = list(prefix); self.pos = 0; self.decisions = []
@@ -531,10 +547,10 @@ class Ctx:
         self.failures = []        # concrete mode: labels of failed checks; sym mode: (label, model)
         self.checks = 0; self.queries = 0; self.solver_s = 0.0
         self.covered = set(); self.cover_labels = set()
-        self.notes = []; self.civil_cache = {}; self._ext_model = None; self.ext_queries = 0; self.witnesses = {}
+        self.notes = []; self.civil_cache = {}; self._ext_model = None; self.ext_queries = 0; self.witnesses = {}; self.triples = []
         if self.mode == 'sym':
             self.solver = z3.Solver()
-            self.solver.set('timeout', qtimeout_ms)
+            self.solver.set('timeout', qtimeout_ms); self.qtimeout_ms = qtimeout_ms
             self.solver.set('random_seed', seed)
     # ---- solver plumbing
     def add(self, *c):
@@ -545,6 +561,11 @@ class Ctx:
         r = self.solver.check(*extra)
         if r == z3.unknown and EXT_SOLVER:
             r = self._external(extra); self.ext_queries += 1
+        if r == z3.unknown:                       # last resort: z3 again with a long time slice
+            left = 60 if self.deadline is None else max(1, min(60, self.deadline - time.time()))
+            self.solver.set('timeout', builtins.int(left * 1000))
+            try: r = self.solver.check(*extra)
+            finally: self.solver.set('timeout', self.qtimeout_ms)
         self.solver_s += time.time() - t0; self.queries += 1
         return r
     def _external(self, extra):
@@ -675,6 +696,7 @@ class Ctx:
         y = z3.Int(name + '.y'); m = z3.Int(name + '.m'); d = z3.Int(name + '.d'); self._reg(name, 'ymd', (y, m, d))
         self.add(valid(y, m, d)); o = dfc(y, m, d); self.add(o >= lo, o <= hi)
         t = SymDatetime(o); t._ymd = (y, m, d); self.civil_cache[z3.simplify(o).get_id()] = (z3.simplify(o), t._ymd)
+        register_civil(self, t._ymd, o)
         return t
     def datetime(self, name, lo = ORD_MIN, hi = ORD_MAX - 1, us_step = 1):
         """arbitrary instant: day ordinal in [lo, hi], microsecond of day a multiple of us_step"""
@@ -702,7 +724,8 @@ class Ctx:
         self.checks += 1
         if self.mode == 'conc':
             ok = builtins.bool(cond)
-            if not ok: self.failures.append(label)
+            if not ok:
+                self.failures.append(label); raise CheckFailed(label)      # as in symbolic mode, the path ends at the first failed check
             return ok
         e = z3.simplify(zb(cond))
         if z3.is_true(e): return True
@@ -718,7 +741,7 @@ class Ctx:
         """unconditional failure on this path (e.g. an unexpected exception)"""
         self.checks += 1
         if self.mode == 'conc':
-            self.failures.append(label); return
+            self.failures.append(label); raise CheckFailed(label)
         r = self._check()
         if r == z3.sat:
             self.failures.append((label, self.model_values()))
@@ -767,7 +790,7 @@ class CheckFailed(BaseException):
 
 # --------------------------------------------------------------------------- exploration
 
-def explore(fn, max_paths = 100000, budget_s = None, fuel = 2000, qtimeout_ms = 5000, seed = 0, known = (), stop_on_first = True, pins = None):
+def explore(fn, max_paths = 100000, budget_s = None, fuel = 2000, qtimeout_ms = 8000, seed = 0, known = (), stop_on_first = True, pins = None):
     """run harness fn(ctx) over all feasible paths.  Returns a summary dict."""
     global CUR
     t0 = time.time(); deadline = None if budget_s is None else t0 + budget_s
@@ -835,6 +858,8 @@ def run_concrete(fn, values):
         fn(c)
     except Infeasible:
         return []
+    except CheckFailed:
+        pass
     finally:
         CUR = None
     return c.failures
